@@ -8,6 +8,8 @@ package main
 import (
 	"encoding/json"
 	"fmt"
+	"sort"
+	"sync"
 	"sync/atomic"
 
 	"github.com/inspirer/textmapper/lalr"
@@ -110,6 +112,11 @@ func family(quick bool) []*gramenum.Gram {
 
 type counters struct{ compiled, deep, rejected, parses int64 }
 
+var (
+	deepMu    sync.Mutex
+	deepCands []caseT // successful family compiles that used deep lookahead (Layer B candidates)
+)
+
 func tokensOf(w string) []int {
 	out := make([]int, len(w))
 	for i := range w {
@@ -135,6 +142,11 @@ func checkCase(k caseT, L int, cnt *counters, c *core.Ctx) {
 	atomic.AddInt64(&cnt.compiled, 1)
 	if tbl.UsedLADepth > 0 {
 		atomic.AddInt64(&cnt.deep, 1)
+		if len(k.Inputs) == 1 && k.Inputs[0].Eoi && k.G.T >= 4 {
+			deepMu.Lock()
+			deepCands = append(deepCands, k)
+			deepMu.Unlock()
+		}
 		c.Outcome(fmt.Sprintf("resolved-with-%d-tokens", tbl.UsedLADepth), 1)
 		if tbl.UsedLADepth > k.K {
 			c.Violate("depth-exceeds-k", fmt.Sprintf("UsedLADepth=%d but lalr(%d) was requested", tbl.UsedLADepth, k.K)+" :: "+k.Grammar, k)
@@ -317,6 +329,17 @@ func run(c *core.Ctx) {
 			c.Capped(fmt.Sprintf("scope %+v stopped after %d grammars (budget)", sc, n))
 		}
 		c.Add("tiny_scope_grammars", int64(n))
+	}
+	sort.Slice(deepCands, func(i, j int) bool {
+		if deepCands[i].Grammar != deepCands[j].Grammar {
+			return deepCands[i].Grammar < deepCands[j].Grammar
+		}
+		return deepCands[i].K < deepCands[j].K
+	})
+	if c.Quick() {
+		layerB(c, deepCands, 60)
+	} else {
+		layerB(c, deepCands, 1500)
 	}
 	c.Nontrivial(cnt.deep)
 	c.Set("successful_compiles", cnt.compiled)
